@@ -1,8 +1,8 @@
 (* C15/Property.v — property theorems only.
    Signatures are ideal (Spec.ideal: Section hypotheses, no axioms); Proofs.ta_ideal shows them satisfiable. *)
 From Coq Require Import String List Bool.
-From Verif Require Import Base.Str Base.Percent Base.Base64 C15.Model C15.Spec C15.Proofs.
-From VerifGen Require Import C15Tables.
+From Verif Require Import Base.Str Base.Percent Base.Base64 Base.Py Base.Py2 C15.Model C15.Spec C15.Proofs C15.Source2.
+From VerifGen Require Import C15Tables C15Src2 C15Src2v.
 Import ListNotations.
 Open Scope string_scope.
 
@@ -134,7 +134,137 @@ Theorem c15_request : forall (key cert : Type) (cert_of : key -> cert) sign veri
 Proof. exact @request_sound. Qed.
 Print Assumptions c15_request.
 
+(* --- the cert argument in all its forms (strengthening round 3) --- *)
+
+(* octets that are no X.509 certificate verify nothing - whatever parameters are presented, whoever verifies, for
+   ANY verify function: an unreadable certificate never brings another key (the verifier's own) into play *)
+Theorem c15_unreadable : forall (key cert : Type) (cert_of : key -> cert) verify own q,
+  verify_redirect_signature_c cert_of verify own q CUnreadable <> VTrue.
+Proof. exact @unreadable_not_verified. Qed.
+Print Assumptions c15_unreadable.
+
+(* without any certificate the verifier's own certificate is used, nothing else *)
+Theorem c15_absent_is_own : forall (key cert : Type) (cert_of : key -> cert) verify own q,
+  verify_redirect_signature_c cert_of verify own q CAbsent
+  = verify_redirect_signature_c cert_of verify own q (CCert (cert_of own)).
+Proof. exact @absent_is_own. Qed.
+Print Assumptions c15_absent_is_own.
+
+(* an unsupported SigAlg is never verified, whatever the form of the certificate *)
+Theorem c15_unsupported_c : forall (key cert : Type) (cert_of : key -> cert) verify own q ca a,
+  get q "SigAlg" = Some a -> ~ supported a -> verify_redirect_signature_c cert_of verify own q ca = VNone.
+Proof. exact @unsupported_not_verified_c. Qed.
+Print Assumptions c15_unsupported_c.
+
+(* the loop of Request._do_redirect_sig_check as coded (ValueError: next certificate; other exceptions
+   propagate) returns True exactly when some READABLE published certificate verifies *)
+Theorem c15_check_loop : forall (key cert : Type) (cert_of : key -> cert) verify own certs q,
+  do_redirect_sig_check_c cert_of verify own certs q = Some true
+  <-> do_redirect_sig_check cert_of verify own (readable cert_of own certs) q = true.
+Proof. exact @check_c_existsb. Qed.
+Print Assumptions c15_check_loop.
+
+(* c15_request over published certificates of every form: acceptance means the owner of a READABLE published
+   certificate signed; unreadable entries stand for nobody *)
+Theorem c15_request_c : forall (key cert : Type) (cert_of : key -> cert) sign verify,
+  ideal cert_of sign verify ->
+  forall own certs origdoc rs sigalg signature,
+  (forall ca, In ca certs -> ca <> CAbsent) ->
+  loads_redirect_c cert_of verify own certs true origdoc rs sigalg signature = true ->
+  exists a sp d k, sigalg = Some a /\ signature = Some sp /\ In (CCert (cert_of k)) certs /\ digest_of a = Some d
+    /\ sp = encode (sign k d (octets_of "SAMLRequest" origdoc rs a)).
+Proof. exact @request_sound_c. Qed.
+Print Assumptions c15_request_c.
+
 (* the ideal-signature hypotheses are satisfiable (term algebra) *)
 Theorem c15_ideal_satisfiable : ideal ta_cert_of ta_sign ta_verify.
 Proof. exact ta_ideal. Qed.
 Print Assumptions c15_ideal_satisfiable.
+
+(* ================================================================== source tie, translator v2 (proofs: C15/Source2.v).
+   gen/C15Src2.v and gen/C15Src2v.v are re-translated from the CURRENT source text on every run; each theorem says, for
+   ALL inputs, that the translated function on the encoded model input gives the (encoded) output of the model function
+   it mirrors.  External calls are universally quantified functions with the stated properties. *)
+
+(* RSACrypto.get_signer: KeyError -> None; else a new signer with the shared signer's digest and `sigkey or self.key` *)
+Theorem c15_source2_get_signer : forall own alg sk, is_bad own = false -> sigkey_ok sk ->
+  src2_get_signer signer_algs_py (enc_crypto own) (PStr alg) sk
+  = match digest_of alg with Some d => enc_signer d (or_key sk own) | None => PNone end.
+Proof. exact src2_get_signer_is_model. Qed.
+Print Assumptions c15_source2_get_signer.
+
+(* RSASigner.verify: key_verify(key or self.key, sig, msg, self.digest) *)
+Theorem c15_source2_signer_verify : forall (kv : pyval -> pyval -> pyval -> pyval -> pyval) d k0 m s k,
+  is_bad k0 = false -> is_bad m = false -> is_bad s = false -> is_bad k = false ->
+  src2_signer_verify kv (enc_signer d k0) m s k = kv (or_key k k0) s m (PStr d).
+Proof. exact src2_signer_verify_is_model. Qed.
+Print Assumptions c15_source2_signer_verify.
+
+(* RSASigner.sign: key_sign(key or self.key, msg, self.digest) *)
+Theorem c15_source2_signer_sign : forall (ks : pyval -> pyval -> pyval -> pyval) d k0 m k,
+  is_bad k0 = false -> is_bad m = false -> is_bad k = false ->
+  src2_signer_sign ks (enc_signer d k0) m k = ks (or_key k k0) m (PStr d).
+Proof. exact src2_signer_sign_is_model. Qed.
+Print Assumptions c15_source2_signer_sign.
+
+(* sigver.verify_redirect_signature (calls the translations of get_signer and RSASigner.verify), sigkey = None, for
+   every parameter dict, every verifier and every form of the cert argument: the model's verify_redirect_signature_c *)
+Theorem c15_source2_verify_redirect_signature :
+  forall (key cert : Type) (cert_of : key -> cert) (verify : cert -> string -> string -> string -> bool)
+         (enc_key : key -> pyval) (enc_pub : cert -> pyval),
+  (forall k, keyval (enc_key k)) -> (forall c, keyval (enc_pub c)) ->
+  forall (urlencode_ext pem_format_ext cert_key_ext encode_ascii_ext b64decode_ext b64encode_ext : pyval -> pyval)
+         (key_verify_ext : pyval -> pyval -> pyval -> pyval -> pyval),
+  (forall k v, urlencode_ext (PObj [(k, PStr v)]) = PStr (urlencode1 k v)) ->
+  (forall s, encode_ascii_ext (PStr s) = if all_chars Base64.is_ascii_char s then PStr s else PExc "UnicodeEncodeError") ->
+  (forall s, b64decode_ext (PStr s) = match decode s with Some b => PStr b | None => PExc "Error" end) ->
+  (forall b, b64encode_ext (PStr b) = PStr (encode b)) ->
+  (forall c d m s, key_verify_ext (enc_pub c) (PStr s) (PStr m) (PStr d) = PBool (verify c d m s)) ->
+  (forall k d m s, key_verify_ext (enc_key k) (PStr s) (PStr m) (PStr d) = PBool (verify (cert_of k) d m s)) ->
+  forall own q ca cv, dict_ok q -> cert_repr enc_pub pem_format_ext cert_key_ext ca cv ->
+  vres_of (src2_verify_redirect_signature signer_algs_py req_order_py resp_order_py urlencode_ext pem_format_ext
+             cert_key_ext encode_ascii_ext b64decode_ext b64encode_ext key_verify_ext
+             (enc_q q) (enc_crypto (enc_key own)) cv PNone)
+  = verify_redirect_signature_c cert_of verify own q ca.
+Proof. exact @src2_verify_redirect_signature_is_model. Qed.
+Print Assumptions c15_source2_verify_redirect_signature.
+
+(* Request._do_redirect_sig_check: the loop over the published certificates (ValueError: next one; other exceptions
+   propagate; break on the first that verifies) is the model's do_redirect_sig_check_c *)
+Theorem c15_source2_do_redirect_sig_check :
+  forall (key cert : Type) (cert_of : key -> cert) (verify : cert -> string -> string -> string -> bool)
+         (own : key) (q : query) (certs : list (certarg cert))
+         (sender_ext : pyval -> pyval) (certs_ext : pyval -> pyval -> pyval) (vrs_ext : pyval -> pyval -> pyval -> pyval)
+         (cert_text : certarg cert -> pyval) (backend msg : pyval),
+  is_bad backend = false -> is_bad msg = false -> (forall ca, is_bad (cert_text ca) = false) ->
+  is_bad (sender_ext (enc_request backend)) = false ->
+  certs_ext (enc_request backend) (sender_ext (enc_request backend))
+    = PList (map (fun ca => PList [PNone; cert_text ca]) certs) ->
+  (forall ca, In ca certs ->
+     vres_of (vrs_ext msg backend (cert_text ca)) = verify_redirect_signature_c cert_of verify own q ca) ->
+  check_of (src2_do_redirect_sig_check sender_ext certs_ext vrs_ext (enc_request backend) msg)
+  = Some (do_redirect_sig_check_c cert_of verify own certs q).
+Proof. exact @src2_do_redirect_sig_check_is_model. Qed.
+Print Assumptions c15_source2_do_redirect_sig_check.
+
+(* pack.http_redirect_message with sign=True (calls the translations of get_signer and RSASigner.sign), every message,
+   RelayState, algorithm argument (None included) and message type except SAMLart: the model's http_redirect_message *)
+Theorem c15_source2_http_redirect_message :
+  forall (key : Type) (sign : key -> string -> string -> string) (enc_key : key -> pyval),
+  (forall k, keyval (enc_key k)) ->
+  forall (deflate : string -> string) (add_query : string -> string -> string)
+         (urlencode_ext deflate_b64_ext encode_ascii_ext b64encode_ext : pyval -> pyval)
+         (add_query_ext : pyval -> pyval -> pyval) (key_sign_ext : pyval -> pyval -> pyval -> pyval),
+  (forall l, urlencode_ext (enc_q l) = PStr (urlencode l)) ->
+  (forall m, deflate_b64_ext (PStr m) = PStr (deflate m)) ->
+  (forall loc s, add_query_ext (PStr loc) (PStr s) = PStr (add_query loc s)) ->
+  (forall s, encode_ascii_ext (PStr s) = if all_chars Base64.is_ascii_char s then PStr s else PExc "UnicodeEncodeError") ->
+  (forall b, b64encode_ext (PStr b) = PStr (encode b)) ->
+  (forall k d m, key_sign_ext (enc_key k) (PStr m) (PStr d) = PStr (sign k d m)) ->
+  forall k msg loc rs typ alg, String.eqb typ "SAMLart" = false ->
+  src2_http_redirect_message signer_algs_py req_order_py resp_order_py sig_allowed_alg_py urlencode_ext deflate_b64_ext
+    add_query_ext encode_ascii_ext b64encode_ext key_sign_ext
+    (PStr msg) (PStr loc) (PStr rs) (PStr typ) (enc_optstr alg) (PBool true) (enc_crypto (enc_key k))
+  = enc_sres add_query loc (http_redirect_message sign k typ (deflate msg) rs alg true).
+Proof. exact @src2_http_redirect_message_is_model. Qed.
+Print Assumptions c15_source2_http_redirect_message.
